@@ -87,7 +87,7 @@ def strip_api(lines):
     for l in lines:
         if l.startswith("API "):
             continue
-        if l.startswith("D tls ") or l.startswith("D lazy "):
+        if l.startswith("D tls ") or l.startswith("D lazy ") or l.startswith("X tls "):
             run.append(l)
             continue
         if run:
